@@ -8,8 +8,10 @@ CONFIGS = [  # (EPSILON env or None, spec constant, NUMERIC_PRECISION env or Non
     (None, "EpsDefault", None, [0, 1, 100, 10000, 100000]),
     ("0.01", "EpsCoarse", "2", [0, 1, 100, 10000, 1000000]),
     ("0.25", "EpsQuarter", "6", [0, 3, 1000, 1000000]),
+    # exact comparisons: the legal setting EPSILON=0; pairs 1/16384 apart (less than the default tolerance)
+    ("0", "EpsZero", None, [0, 1, 100]),
 ]
-EPS_VAL = {"EpsDefault": "1/10000", "EpsCoarse": "1/100", "EpsQuarter": "1/4"}
+EPS_VAL = {"EpsDefault": "1/10000", "EpsCoarse": "1/100", "EpsQuarter": "1/4", "EpsZero": "0"}
 
 
 def run(ctx):
@@ -25,12 +27,15 @@ def run(ctx):
             env["EPSILON"] = eps_env
         if prec_env:
             env["NUMERIC_PRECISION"] = prec_env
-        cases = [gen_numeric.probe_case(1000 * ci + 1, EPS_VAL[eps_const], mags),
-                 gen_numeric.big_probe_case(1000 * ci + 2, EPS_VAL[eps_const])]
-        for i in range(40 if quick else 800):
-            cases.append(gen_numeric.deep_case(ctx.seed, 1000000 * (ci + 1) + i))
-        for i in range(30 if quick else 600):
-            cases.append(gen_numeric.print_case(rng, 2000000 * (ci + 1) + i))
+        if eps_const == "EpsZero":
+            cases = [gen_numeric.probe_case(1000 * ci + 1, "0", mags, half="1/16384")]
+        else:
+            cases = [gen_numeric.probe_case(1000 * ci + 1, EPS_VAL[eps_const], mags),
+                     gen_numeric.big_probe_case(1000 * ci + 2, EPS_VAL[eps_const])]
+            for i in range(40 if quick else 800):
+                cases.append(gen_numeric.deep_case(ctx.seed, 1000000 * (ci + 1) + i))
+            for i in range(30 if quick else 600):
+                cases.append(gen_numeric.print_case(rng, 2000000 * (ci + 1) + i))
         tf = ctx.drive("core", cases, hashseeds=(0, 1) if quick else tuple(range(8)), opts={"snaps": False}, env=env)
         ctx.validate(tf, {c["id"]: c for c in cases}, driver="core", opts={"snaps": False}, eps=eps_const)
         for line in open(tf):
@@ -49,7 +54,7 @@ def run(ctx):
     ctx.extra["boundary_probe_answers"] = n_probe
     ctx.extra["configurations"] = [{"EPSILON": a or "default", "NUMERIC_PRECISION": c or "default"} for a, _, c, _ in CONFIGS]
     ctx.rule = ("M: every expression tree to depth 2 x 16 valuations (stack-machine evaluation refines Eval; operand-order laws) "
-                "and 225 comparison probes; V per configuration (EPSILON default/0.01/0.25, NUMERIC_PRECISION default/2/6, one "
+                "and 225 comparison probes; V per configuration (EPSILON default/0.01/0.25 and 0 = exact, NUMERIC_PRECISION default/2/6, one "
                 "driver process each): one-condition actions on value pairs 0,1,2,4 half-tolerances apart (both orders, all five "
                 "operators) at magnitudes up to 10^5..10^6, and as mixed numbers (translation-invariant comparison) at 10^6..10^9; random actions with expression trees to depth 4 (applicability and "
                 "assign/increase/decrease successors); actions with constants of up to 5 decimals printed with 0..6 decimals and "
